@@ -515,6 +515,11 @@ pub fn check(opts: &CheckOpts) -> i32 {
     // hangs / crashes: the driver regenerates the case (generation is a pure function of seed and run index)
     for (run, class, detail) in resource_violations {
         let case = props::gen_case(prop, opts.seed, run, &opts.tier);
+        let case = if known.matches(prop, &class).is_none() {
+            minimise_external(prop, opts.seed, run, &case, &class, opts.mem_cap)
+        } else {
+            case
+        };
         if let Some(f) = known.matches(prop, &class) {
             let e = agg.known.entry(f.id.clone()).or_insert((0, detail.clone()));
             e.0 += 1;
@@ -526,7 +531,7 @@ pub fn check(opts: &CheckOpts) -> i32 {
             run,
             class: class.clone(),
             detail: detail.clone(),
-            minimised: false,
+            minimised: true,
             schedule_controlled: true,
             case,
         });
@@ -777,4 +782,57 @@ pub fn determinism_count(prop: &str, seed: u64, runs: u64) -> Option<u64> {
         return None;
     }
     Some(mismatches)
+}
+
+/// Minimisation of a hang / crash: candidates are executed in fresh processes under a watchdog (a worker cannot
+/// shrink a case that kills or stalls it). Greedy over the engine's shrink candidates, 16 candidates at a time.
+pub fn minimise_external(prop: &str, seed: u64, run: u64, case: &AnyCase, class: &str, mem_cap: u64) -> AnyCase {
+    let dir = match tempfile::tempdir() {
+        Ok(d) => d,
+        Err(_) => return case.clone(),
+    };
+    let timeout = Duration::from_secs(if class == "hang" { 8 } else { 30 });
+    let mut cur = case.clone();
+    let mut budget = 320usize;
+    let mut start = 0usize;
+    loop {
+        let cands = props::shrink(&cur);
+        if start >= cands.len() || budget == 0 {
+            return cur;
+        }
+        let batch: Vec<(usize, &AnyCase)> = cands.iter().enumerate().skip(start).take(16.min(budget)).collect();
+        budget -= batch.len();
+        let results: Vec<(usize, bool)> = std::thread::scope(|sc| {
+            let handles: Vec<_> = batch
+                .iter()
+                .map(|(i, c)| {
+                    let path = dir.path().join(format!("cand-{}.json", i));
+                    let rf = ReplayFile {
+                        property: prop.to_string(),
+                        seed,
+                        run,
+                        class: class.to_string(),
+                        detail: String::new(),
+                        minimised: false,
+                        schedule_controlled: true,
+                        case: (*c).clone(),
+                    };
+                    let _ = std::fs::write(&path, serde_json::to_string(&rf).unwrap());
+                    let i = *i;
+                    sc.spawn(move || {
+                        let (ok, _) = replay_fresh(&path.to_string_lossy(), timeout, mem_cap);
+                        (i, ok)
+                    })
+                })
+                .collect();
+            handles.into_iter().map(|h| h.join().unwrap_or((usize::MAX, false))).collect()
+        });
+        match results.iter().filter(|(_, ok)| *ok).map(|(i, _)| *i).min() {
+            Some(i) => {
+                cur = cands[i].clone();
+                start = i; // continue at the same position of the new candidate list
+            }
+            None => start += batch.len(),
+        }
+    }
 }
